@@ -46,7 +46,9 @@ use serde::{Deserialize, Serialize};
 
 use crate::{
     error::{EpbdError, Result},
-    types::{BuildingNeeds, Carrier, CType, EProd, Energy, HasValues, Meta, MetaVec, ProdSource, Service},
+    types::{
+        BuildingNeeds, CType, Carrier, EProd, Energy, HasValues, Meta, MetaVec, Needs, ProdSource, Service,
+    },
     vecops::{veclistsum, vecvecdif, vecvecsum},
 };
 
@@ -90,7 +92,27 @@ impl fmt::Display for Components {
             .map(|v| format!("{}", v))
             .collect::<Vec<_>>()
             .join("\n");
-        write!(f, "{}\n{}", meta_lines, data_lines)
+        let needs_lines = [
+            (Service::ACS, &self.needs.ACS),
+            (Service::CAL, &self.needs.CAL),
+            (Service::REF, &self.needs.REF),
+        ]
+        .iter()
+        .filter_map(|(service, values)| {
+            values.as_ref().map(|values| {
+                Needs {
+                    service: *service,
+                    values: values.clone(),
+                }
+                .to_string()
+            })
+        })
+        .collect::<Vec<_>>();
+        if needs_lines.is_empty() {
+            write!(f, "{}\n{}", meta_lines, data_lines)
+        } else {
+            write!(f, "{}\n{}\n{}", meta_lines, needs_lines.join("\n"), data_lines)
+        }
     }
 }
 
